@@ -344,6 +344,7 @@ func (g *Gen) funcTest(preds []string, idx int) TestSpec {
 	if ts.Opts.Code == "" {
 		ts.Opts.Code = fmt.Sprintf("f%d", idx)
 	}
+	ts.AsValue = g.p(0.3, "asvalue") // a reusable z.TestFunc value, copied and specialised by field assignment
 	return ts
 }
 
